@@ -22,10 +22,36 @@ def adt_short(adt, variant):
     return base
 
 
+_DEPTH = [None]
+
+
+class depth_limit:
+    """with depth_limit(n): canon() abbreviates sub-expressions nested deeper than n as `…`"""
+
+    def __init__(self, n):
+        self.n = n
+
+    def __enter__(self):
+        self.old = _DEPTH[0]
+        _DEPTH[0] = self.n
+
+    def __exit__(self, *a):
+        _DEPTH[0] = self.old
+
+
 def canon(e, keep_sites=False):
+    return _canon(e, keep_sites, 0)
+
+
+def _canon(e, keep_sites, _d):
     """canonical string of an expression: names + constants, no block numbers"""
     if not isinstance(e, tuple) or not e:
         return repr(e)
+    if _DEPTH[0] is not None and _d > _DEPTH[0]:
+        return "…"
+
+    def canon(x, ks=False):
+        return _canon(x, ks, _d + 1)
     k = e[0]
     if k == "c":
         v = e[2]
